@@ -65,7 +65,7 @@ func vFrameIs(fr *FrameHeader, f *refFrame) bool {
 // otherwise returns exactly the reference reading, and leaves the reader at
 // the byte after the frame.
 //
-//verif:harness prop=C16,C05 unwind=40 timeout=600
+//verif:harness prop=C16,C05,C17 unwind=40 timeout=600
 func VerifH_C16_frame() {
 	vStalePools()
 	plen := vRange(0, vPick(8, 14))
